@@ -237,6 +237,7 @@ def _cfg_bm(tier, seed):
             out.append({"shape": shape, "members": members, "ncomp": 1, "mode": mode})
     out.append({"shape": (1, 2), "members": [1, 0, 1], "ncomp": 2, "mode": "weighted", "center": True})
     out.append({"shape": (1, 2), "members": [1, 0, 1], "ncomp": 2, "mode": "none"})
+    out.append({"shape": (1, 2), "members": [1, 0, 1, 0], "ncomp": 2, "mode": "uncertainty"})
     if tier == "thorough":
         out.append({"shape": (2, 2), "members": [0, 3, 3, 1], "ncomp": 3, "mode": "uncertainty", "center": True})
         out.append({"shape": (2, 2), "members": [0, 3, 3, 1], "ncomp": 3, "mode": "none"})
